@@ -469,7 +469,7 @@ def run(chk) -> None:
 
         chk.robust |= {"stack-orientation", "sorted-emission"}
         sloop = c03.kd_loop(chk, fs)
-        c04e.check_orientation(chk, fs, sloop, c03e.build_sites(fs, sloop), Folder(chk.repo, AN).fold, c04.make_label_of(chk.repo))
+        c04e.check_orientation(chk, fs, sloop, c03e.build_sites(fs, sloop, chk.repo), Folder(chk.repo, AN).fold, c04.make_label_of(chk.repo))
     except (c03e.NotReadable, c03e.SX.TooManyPaths) as ex:
         chk.error("stack-orientation", fs.where, f"orientation of the recorded stackings not readable: {str(ex)[:120]}")
     outs = [l for l in ast.walk(fs.node) if isinstance(l, (ast.For, ast.comprehension)) and isinstance(l.iter, ast.Call) and astq.callee_name(l.iter) == "sorted" and len(l.iter.args) == 1 and isinstance(l.iter.args[0], ast.Name)]
